@@ -1,6 +1,308 @@
-/-! `pmodel assemblage`: line-protocol driver (stub — replaced by the owner of this model). -/
-namespace Driver.Assemblage
+import PhreeqcVerif.Model.Util
+import PhreeqcVerif.Model.Assemblage
+/-! `pmodel assemblage`: reads the in-process dump written by `harness/ph_assemblage.cpp` and recomputes every relation
+of property C03 with the definitions of `Model/Assemblage.lean` on `Float`.
 
-def run : IO Unit := IO.eprintln "pmodel assemblage: not implemented"
+Input: the harness's lines (`B id k`, `G …`, `P …`, `Q …`, `S …`, `X …`, `XS …`, `U …`, `US …`, `E`; `PROBE id`, `PG …`,
+`PRD …`, `PU …`, `END id`).  Output lines:
+* `N id blk nPP nSS nEX nSU state` — what the block contained
+* `V id blk kind name ok|FAIL lhs rhs` — a relation of the PROPERTY (ValidPhase at 1e-6, exchange capacity / site total
+  at 1e-8, mole fractions ≥ 0 and summing to one, ideal component: SI = log10 x); doubles as 16 hex digits
+* `T id blk kind name ok|FAIL code model` — a TIE relation: a number the engine holds (or a decision the real
+  `residuals` / `check_residuals` / `ineq` / `reset` took on crafted input) equals the model's -/
+namespace Driver.Assemblage
+open PhreeqcVerif PhreeqcVerif.Util PhreeqcVerif.Assemblage
+
+def fx (s : String) : Float := (floatOfHex s).getD (0.0 / 0.0)
+def ux (s : String) : String := (unhexStr s).getD "?"
+def nat (s : String) : Nat := s.toNat?.getD 0
+def absF (x : Float) : Float := if x < 0 then -x else x
+def maxF (x y : Float) : Float := if x < y then y else x
+def close (rel abs a b : Float) : Bool :=
+  let d := absF (a - b)
+  d ≤ abs || d ≤ rel * maxF (absF a) (absF b)
+def okS (b : Bool) : String := if b then "ok" else "FAIL"
+def hf (x : Float) : String := hexOfFloat x
+def b2f (b : Bool) : Float := if b then 1.0 else 0.0
+
+/-- tokens `name coef la` × n starting at index i -/
+def readToks (w : Array String) (i n : Nat) : List (Float × Float) :=
+  (List.range n).map fun k => (fx (w.getD (i + 3 * k + 2) ""), fx (w.getD (i + 3 * k + 3) ""))
+
+structure QLine where
+  ss : String
+  name : String
+  num : Nat
+  xmoles : Float
+  cmoles : Float
+  frac : Float
+  l10frac : Float
+  l10lam : Float
+  pl10frac : Float
+  pl10lam : Float
+  f : Float
+  resid : Float
+  lk : Float
+  iap : Float
+  ssIn : Bool
+  phaseIn : Bool
+  toks : List (Float × Float)
+
+structure Blk where
+  id : String := "?"
+  k : String := "?"
+  state : String := "0"
+  env : Env Float := { tol := 1e-8, ineqTol := 1e-15, minRel := 1e-23 }
+  minSS : Float := 1e-27
+  iterations : Nat := 1
+  npp : Nat := 0
+  qs : Array QLine := #[]
+  nss : Nat := 0
+  xs : Array (String × String × Float × Float × Float) := #[]    -- kind(X/U), element, moles, f, resid
+  sp : Array (String × Float × List (String × Float)) := #[]      -- kind(XS/US) … species moles, (element, coef)
+  spk : Array String := #[]
+
+def epsSI : Float := 1e-6
+def epsCap : Float := 1e-8
+
+def vline (b : Blk) (tag kind name : String) (ok : Bool) (l r : Float) : String :=
+  s!"{tag} {b.id} {b.k} {kind} {hexStr name} {okS ok} {hf l} {hf r}"
+
+/-- P line → output lines -/
+def doP (b : Blk) (w : Array String) : List String :=
+  let name := ux (w.getD 2 "")
+  let moles := fx (w.getD 3 "")
+  let f := fx (w.getD 4 "")
+  let resid := fx (w.getD 5 "")
+  let si := fx (w.getD 6 "")
+  let lk := fx (w.getD 8 "")
+  let iap := fx (w.getD 9 "")
+  let dis := w.getD 10 "0" == "1"
+  let addf := w.getD 11 "-" != "-"
+  let force := w.getD 12 "0" == "1"
+  let prec := w.getD 13 "0" == "1"
+  let initial := fx (w.getD 14 "")
+  let inert := fx (w.getD 15 "")
+  let phaseIn := w.getD 16 "0" == "1"
+  let ntok := nat (w.getD 22 "0")
+  let toks := readToks w 22 ntok
+  if !phaseIn then
+    [vline b "V" "notin" name (decide (moles ≤ initial) || prec) moles initial]
+  else
+    let fM := ppF lk si toks
+    let iapM := iapOf toks
+    let active := if prec then moles - initial else moles
+    let u : PP Float := { moles := active, f := f, dissolveOnly := dis, addFormula := addf, initial := initial,
+                          inert := if prec then initial else inert, forceEq := force, precipOnly := prec }
+    let row := Row.pp u
+    let fails := row.fails b.env (if b.iterations < 1 then 1 else b.iterations)
+    let chk := row.check b.env
+    let fin : Final Float := { moles := moles, d := (iap - lk) - si, initial := initial, dissolveOnly := dis, precipOnly := prec }
+    let valid := validPhaseB epsSI fin
+    [vline b "T" "pp-f" name (close 1e-13 1e-11 f fM) f fM,
+     vline b "T" "pp-iap" name (close 1e-13 1e-11 iap iapM) iap iapM,
+     vline b "T" "pp-resid" name (close 1e-14 1e-300 resid (f * (LOG_10 : Float))) resid (f * (LOG_10 : Float)),
+     vline b "T" "pp-gate" name (!fails && !chk.1 && !chk.2) (b2f fails) (b2f chk.1 + 2 * b2f chk.2),
+     vline b "V" (if addf then "valid-alt" else if dis then "valid-dissolve" else if prec then "valid-precip" else
+        if force then "valid-force" else "valid") name valid moles ((iap - lk) - si)]
+
+def doQ (w : Array String) : QLine :=
+  let ntok := nat (w.getD 19 "0")
+  { ss := ux (w.getD 2 ""), name := ux (w.getD 3 ""), num := nat (w.getD 4 "0"), xmoles := fx (w.getD 5 ""), cmoles := fx (w.getD 6 ""),
+    frac := fx (w.getD 7 ""), l10frac := fx (w.getD 8 ""), l10lam := fx (w.getD 9 ""), pl10frac := fx (w.getD 10 ""),
+    pl10lam := fx (w.getD 11 ""), f := fx (w.getD 12 ""), resid := fx (w.getD 13 ""), lk := fx (w.getD 14 ""), iap := fx (w.getD 15 ""),
+    ssIn := w.getD 16 "0" == "1", phaseIn := w.getD 17 "0" == "1", toks := readToks w 19 ntok }
+
+/-- S line (with the Q lines of the block) → output lines -/
+def doS (b : Blk) (w : Array String) : List String :=
+  let ss := ux (w.getD 1 "")
+  let a0 := fx (w.getD 3 "")
+  let a1 := fx (w.getD 4 "")
+  let misc := w.getD 5 "0" == "1"
+  let xb1 := fx (w.getD 6 "")
+  let xb2 := fx (w.getD 7 "")
+  let ssIn := w.getD 8 "0" == "1"
+  let total := fx (w.getD 9 "")
+  let tk := fx (w.getD 10 "")
+  let icase := (w.getD 11 "0").toInt?.getD (-1)
+  let np := nat (w.getD 14 "0")
+  let p0 := if np > 0 then fx (w.getD 15 "") else 0.0
+  let p1 := if np > 1 then fx (w.getD 16 "") else 0.0
+  let qs := (b.qs.toList.filter fun q => q.ss == ss)
+  let ns := ssMoles b.minSS (qs.map (·.cmoles))
+  let tot := ssTotal ns
+  let binary := a0 != 0.0 || a1 != 0.0
+  let fr : List Float :=
+    if binary then
+      match ns with
+      | [nc, nb] => let r := ssBinary a0 a1 misc xb1 xb2 nc nb tot; [r.xc, r.xb]
+      | _ => ssIdeal ns
+    else ssIdeal ns
+  let lam : List Float :=
+    if binary then
+      match ns with
+      | [nc, nb] => let r := ssBinary a0 a1 misc xb1 xb2 nc nb tot; [r.l10c, r.l10b]
+      | _ => ns.map fun _ => 0.0
+    else ns.map fun _ => 0.0
+  let per := (qs.zip (fr.zip lam)).flatMap fun (q, x, l) =>
+    let fM := ssF q.lk q.pl10frac q.pl10lam q.toks
+    [vline b "T" "ss-frac" q.name (close 1e-14 1e-300 q.frac x) q.frac x,
+     vline b "T" "ss-l10frac" q.name (close 1e-13 1e-13 q.l10frac (Float.log10 x)) q.l10frac (Float.log10 x),
+     vline b "T" "ss-l10lam" q.name (close 1e-12 1e-14 q.l10lam l) q.l10lam l,
+     vline b "T" "ss-phase-copy" q.name (q.pl10frac == q.l10frac && q.pl10lam == q.l10lam) q.pl10frac q.l10frac] ++
+    (if q.phaseIn then
+      [vline b "T" "ss-f" q.name (close 1e-13 1e-11 q.f fM) q.f fM,
+       vline b "T" "ss-gate" q.name (!((Row.ss q.ssIn q.f q.xmoles).fails b.env 1) && !((Row.ss q.ssIn q.f q.xmoles).check b.env).1)
+         q.resid (q.f * (LOG_10 : Float))] else []) ++
+    [vline b "V" "ss-nonneg" q.name (decide (0.0 ≤ q.frac)) q.frac 0.0] ++
+    (if !binary && q.ssIn && q.phaseIn then
+      [vline b "V" "ss-ideal-activity" q.name (absF ((q.iap - q.lk) - q.l10frac) ≤ epsSI && q.l10lam == 0.0) (q.iap - q.lk) q.l10frac]
+     else if binary && q.ssIn && q.phaseIn then
+      [vline b "V" "ss-binary-activity" q.name (absF ((q.iap - q.lk) - (q.l10frac + q.l10lam)) ≤ epsSI) (q.iap - q.lk) (q.l10frac + q.l10lam)]
+     else [])
+  let sumFr := sumL (qs.map (·.frac))
+  let gp := guggParams icase.toNat p0 p1 (tk * (R_KJ_DEG_MOL : Float))
+  let gl := match gp with
+    | some (m0, m1) => if icase ≥ 0 then
+        [vline b "T" "ss-a0" ss (close 1e-13 1e-300 a0 m0) a0 m0, vline b "T" "ss-a1" ss (close 1e-13 1e-300 a1 m1) a1 m1] else []
+    | none => []
+  per ++ gl ++
+  [vline b "T" "ss-total" ss (close 1e-14 1e-300 total tot) total tot,
+   vline b "V" "ss-sum" ss (absF (sumFr - 1.0) ≤ 1e-12) sumFr 1.0,
+   vline b "T" "ss-in" ss (qs.all fun q => q.ssIn == (ssIn && q.phaseIn)) (b2f ssIn) (b2f ssIn)]
+
+/-- at `E`: exchange / surface rows against the species they sum over -/
+def doE (b : Blk) : List String :=
+  b.xs.toList.flatMap fun (kind, elt, moles, f, resid) =>
+    let spKind := if kind == "X" then "XS" else "US"
+    let terms := (b.sp.toList.zip b.spk.toList).filter (fun (_, k) => k == spKind)
+    let s := terms.foldl (fun acc ((_, m, els), _) =>
+      acc + (els.filter (fun e => e.1 == elt)).foldl (fun a e => a + m * e.2) 0.0) 0.0
+    let row : Row Float := if kind == "X" then Row.exch moles f else Row.surf moles f
+    let gate := !(row.fails b.env 1) && !(row.check b.env).1
+    let capOk := if moles ≤ b.env.minRel then absF (moles - f) ≤ epsCap else absF (moles - f) ≤ epsCap * moles
+    let pre := if kind == "X" then "ex" else "su"
+    [vline b "T" (pre ++ "-f") elt (close 1e-9 1e-30 f s) f s,
+     vline b "T" (pre ++ "-resid") elt (close 1e-14 1e-300 resid (moles - f)) resid (moles - f),
+     vline b "T" (pre ++ "-gate") elt gate moles f,
+     vline b "V" (pre ++ "-capacity") elt capOk f moles,
+     vline b "V" (pre ++ "-capacity-species") elt (if moles ≤ b.env.minRel then absF (moles - s) ≤ epsCap else absF (moles - s) ≤ 2 * epsCap * moles) s moles]
+
+structure PU where
+  k : Nat
+  f : Float
+  moles : Float
+  ini : Float
+  dis : Bool
+  addf : Bool
+  resid : Float
+  rdel : Float
+  din : Float
+  mafter : Float
+  dafter : Float
+  rmAfter : Bool
+
+structure Probe where
+  id : String := "?"
+  env : Env Float := { tol := 1e-8, ineqTol := 1e-15, minRel := 1e-23 }
+  iterations : Nat := 1
+  rd : String := "-"
+  prd : Array String := #[]
+  us : Array PU := #[]
+
+def pline (p : Probe) (kind : String) (k : Nat) (ok : Bool) (a b : Float) : String :=
+  s!"T {p.id} {p.rd} {kind} {k} {okS ok} {hf a} {hf b}"
+
+/-- one probe round: the real functions' answers against the model's -/
+def doRound (p : Probe) : List String :=
+  if p.prd.size == 0 then [] else
+  let convC := p.prd.getD 2 "0" == "1"
+  let rmC := p.prd.getD 4 "0" == "1"
+  let nerrC := nat (p.prd.getD 5 "0")
+  let nwarnC := nat (p.prd.getD 6 "0")
+  let nlogC := nat (p.prd.getD 7 "0")
+  let us := p.us.toList
+  let rows : List (PP Float) := us.map fun u =>
+    { moles := u.moles, f := u.f, dissolveOnly := u.dis, addFormula := u.addf, initial := u.ini, inert := 0.0 }
+  let it := if p.iterations < 1 then 1 else p.iterations
+  let convM := rows.all fun r => !((Row.pp r).fails p.env it)
+  let chk := rows.map fun r => (Row.pp r).check p.env
+  let nerrM := (chk.filter (·.1)).length
+  let rmM := chk.any (·.2)
+  -- log lines "has not converged" that are not ERROR lines: dissolve_only branch, remove branch, add-formula branch
+  let nlogM := (rows.filter fun r =>
+    let res := r.f * (LOG_10 : Float)
+    if !r.addFormula then
+      if r.dissolveOnly then (p.env.tol < res && 0.0 < r.moles) || (res < -p.env.tol && 0.0 < r.initial - r.moles)
+      else (p.env.tol * 100 ≤ res && 0.0 < r.moles)
+    else (p.env.tol ≤ absF res && 0.0 < r.moles)).length
+  let nwarnM := (rows.filter fun r => r.addFormula && (p.env.tol ≤ absF (r.f * (LOG_10 : Float)) && 0.0 < r.moles)).length
+  let after := resetPP p.env (rows.zip (us.map (·.din)))
+  let scan := resetScanAll (rows.zip (us.map (·.din))) 1.0
+  [pline p "probe-converged" 0 (convC == convM) (b2f convC) (b2f convM),
+   pline p "probe-errors" 0 (nerrC == nerrM) nerrC.toFloat nerrM.toFloat,
+   pline p "probe-remove-flag" 0 (rmC == rmM) (b2f rmC) (b2f rmM),
+   pline p "probe-log-lines" 0 (nlogC == nlogM) nlogC.toFloat nlogM.toFloat,
+   pline p "probe-warnings" 0 (nwarnC == nwarnM) nwarnC.toFloat nwarnM.toFloat] ++
+  (us.zip (rows.zip (after.zip scan.1))).flatMap fun (u, r, a, d) =>
+    [pline p "probe-resid" u.k (u.resid == r.f * (LOG_10 : Float)) u.resid (r.f * (LOG_10 : Float)),
+     -- ineq's special case reads residual[i] (just computed by residuals) and x[i]->moles
+     pline p "probe-remove-delta" u.k (u.rdel == removeDelta r && !u.rmAfter) u.rdel (removeDelta r),
+     pline p "probe-reset-moles" u.k (close 1e-15 0.0 u.mafter a.moles) u.mafter a.moles,
+     pline p "probe-reset-delta" u.k (close 1e-15 0.0 u.dafter (d / scan.2)) u.dafter (d / scan.2)]
+
+partial def loop (h : IO.FS.Stream) (out : IO.FS.Stream) (b : Blk) (p : Probe) : IO Unit := do
+  let line ← h.getLine
+  if line.isEmpty then
+    for l in doRound p do out.putStrLn l
+    return
+  let w := (words line).toArray
+  match w.getD 0 "" with
+  | "B" => loop h out { id := w.getD 1 "?", k := w.getD 2 "?" } p
+  | "G" =>
+    let env : Env Float := { tol := fx (w.getD 8 ""), ineqTol := fx (w.getD 9 ""), minRel := fx (w.getD 10 "") }
+    loop h out { b with state := w.getD 1 "0", env := env, minSS := fx (w.getD 12 ""), iterations := nat (w.getD 6 "1") } p
+  | "P" =>
+    for l in doP b w do out.putStrLn l
+    loop h out { b with npp := b.npp + 1 } p
+  | "Q" => loop h out { b with qs := b.qs.push (doQ w) } p
+  | "S" =>
+    for l in doS b w do out.putStrLn l
+    loop h out { b with nss := b.nss + 1 } p
+  | "X" => loop h out { b with xs := b.xs.push ("X", ux (w.getD 6 ""), fx (w.getD 3 ""), fx (w.getD 4 ""), fx (w.getD 5 "")) } p
+  | "U" => loop h out { b with xs := b.xs.push ("U", ux (w.getD 6 ""), fx (w.getD 3 ""), fx (w.getD 4 ""), fx (w.getD 5 "")) } p
+  | "XS" | "US" =>
+    let n := nat (w.getD 4 "0")
+    let els := (List.range n).map fun k => (ux (w.getD (5 + 2 * k) ""), fx (w.getD (6 + 2 * k) ""))
+    loop h out { b with sp := b.sp.push (ux (w.getD 1 ""), fx (w.getD 2 ""), els), spk := b.spk.push (w.getD 0 "") } p
+  | "E" =>
+    for l in doE b do out.putStrLn l
+    let nex := (b.xs.toList.filter fun x => x.1 == "X").length
+    let nsu := (b.xs.toList.filter fun x => x.1 == "U").length
+    out.putStrLn s!"N {b.id} {b.k} {b.npp} {b.nss} {nex} {nsu} {b.state}"
+    loop h out {} p
+  | "PROBE" =>
+    for l in doRound p do out.putStrLn l
+    loop h out b { id := w.getD 1 "?" }
+  | "PG" =>
+    let env : Env Float := { tol := fx (w.getD 1 ""), ineqTol := fx (w.getD 2 ""), minRel := fx (w.getD 3 "") }
+    loop h out b { p with env := env, iterations := nat (w.getD 4 "1") }
+  | "PRD" =>
+    for l in doRound p do out.putStrLn l
+    loop h out b { p with rd := w.getD 1 "-", prd := w, us := #[] }
+  | "PU" =>
+    let u : PU := { k := nat (w.getD 2 "0"), f := fx (w.getD 3 ""), moles := fx (w.getD 4 ""), ini := fx (w.getD 5 ""),
+                    dis := w.getD 6 "0" == "1", addf := w.getD 7 "0" == "1", resid := fx (w.getD 8 ""), rdel := fx (w.getD 9 ""),
+                    din := fx (w.getD 10 ""), mafter := fx (w.getD 11 ""), dafter := fx (w.getD 12 ""), rmAfter := w.getD 13 "0" == "1" }
+    loop h out b { p with us := p.us.push u }
+  | "END" =>
+    for l in doRound p do out.putStrLn l
+    loop h out b {}
+  | _ => loop h out b p
+
+def run : IO Unit := do
+  let stdin ← IO.getStdin
+  let stdout ← IO.getStdout
+  loop stdin stdout {} {}
 
 end Driver.Assemblage
